@@ -213,7 +213,9 @@ Section Recall.
   Proof. induction k as [|k IH]; intros row; [apply kh_ret|]. kh_auto. apply IH. Qed.
   Lemma kh_page cands : keeps_hist (page_completions_simple U cfg cands).
   Proof.
-    unfold page_completions_simple. cbv zeta. apply kh_bind; [apply kh_rows|]. intros _. kh_display. kh_auto.
+    unfold page_completions_simple. cbv zeta.
+    destruct (Nat.eqb _ 0); [apply kh_panic|]. destruct (Nat.eqb _ 0); [apply kh_panic|].
+    apply kh_bind; [apply kh_rows|]. intros _. kh_display. kh_auto.
   Qed.
   Lemma kh_complete_line fuel : keeps_hist (complete_line U cfg fuel).
   Proof.
